@@ -428,13 +428,31 @@ def _receiver_start(text, dot):
     return i
 
 
-def r4_option_combinators(text, log, base_line, item_name):
+def r4_option_combinators(text, log, base_line, item_name, with_map=False):
     """R4o: closure-taking Option combinators -> the `match` they abbreviate (semantics preserving; closures without
     `return` / `?`):  X.map_or(D, |v| E) -> match X { Some(v) => E, None => D };  X.is_some_and(|v| E) -> .. None => false;
     X.map(|v| E).unwrap_or(D) -> match X { Some(v) => E, None => D }."""
     from . import rustsrc
     for _round in range(20):
         m = re.search(r'\.\s*(map_or|is_some_and|is_none_or)\s*\(', text)
+        if not m and with_map:
+            # Option::map only where the receiver is visibly an Option: `<map>.get(k).map(|v| E)` (iterator `.map` is left alone)
+            for mm in re.finditer(r'\.\s*(map)\s*\(\s*\|', text):
+                pre = text[:mm.start()].rstrip()
+                if pre.endswith(')'):
+                    depth, k = 0, len(pre) - 1
+                    while k >= 0:
+                        if pre[k] == ')':
+                            depth += 1
+                        elif pre[k] == '(':
+                            depth -= 1
+                            if depth == 0:
+                                break
+                        k -= 1
+                    if k > 0 and re.search(r'\.\s*get\s*$', pre[:k]):
+                        m = re.match(r'\.\s*(map)\s*\(', text[mm.start():])
+                        m = type('M', (), dict(start=lambda self, s=mm.start(): s, end=lambda self, e=mm.start() + m.end(): e, group=lambda self, i, g=m: g.group(i)))()
+                        break
         if not m:
             break
         op = m.end() - 1
@@ -455,6 +473,8 @@ def r4_option_combinators(text, log, base_line, item_name):
             if cut is None:
                 break
             default, clos = inner[:cut].strip(), inner[cut + 1:].strip()
+        elif kind == 'map':
+            default, clos = 'None', inner.strip()
         else:
             default, clos = ('false' if kind == 'is_some_and' else 'true'), inner.strip()
         mc = re.match(r'\|\s*([^|]*?)\s*\|\s*(.*)$', clos, re.S)
@@ -467,7 +487,7 @@ def r4_option_combinators(text, log, base_line, item_name):
         recv = text[start:m.start()].strip()
         if not recv:
             break
-        new = '(match %s { Some(%s) => %s, None => %s })' % (recv, pat, body, default)
+        new = '(match %s { Some(%s) => %s, None => %s })' % (recv, pat, ('Some(%s)' % body) if kind == 'map' else body, default)
         log.append(dict(rule='R4o.' + kind, line=base_line + text.count('\n', 0, start), old=_short(text[start:cl + 1]), new=_short(new), item=item_name))
         # keep the line structure
         nl = text.count('\n', start, cl + 1)
